@@ -113,11 +113,20 @@ func genLong(t *rapid.T) harness.Case {
 
 const rule = "inputs from G1 byte soup (50%), G2 line-structured (30%), G3 mutated spec examples (20%); non-trivial = at least 2 root blocks, or the input has a NUL, a CR or an interior blank line; distinct by FNV-64 of input and schedule"
 
-func TestProperty(t *testing.T) {
-	harness.Run(t, harness.Plan{Prop: "C01", Checks: []harness.Check{
+func plan() harness.Plan {
+		return harness.Plan{Prop: "C01", Checks: []harness.Check{
 		{Name: "memory", Quick: 60000, Thorough: 600000, Gen: genMemory, Prop: propMemory, Rule: rule},
 		{Name: "stream", Quick: 40000, Thorough: 400000, Gen: genStream, Prop: propStream, Rule: rule + "; read schedule from G5"},
 		{Name: "stream_long", Quick: 300, Thorough: 3000, Gen: genLong, Prop: propStream, Rule: "G1 long mode 6-40 KB (crosses the 8 KiB read window) x G5 schedule; non-trivial as above"},
 		{Name: "memory_long", Quick: 300, Thorough: 3000, Gen: func(t *rapid.T) harness.Case { return harness.Case{In: gen.Long(6000, 40000).Draw(t, "in")} }, Prop: propMemory, Rule: "G1 long mode, in-memory"},
-	}})
+	}}
+}
+
+func TestProperty(t *testing.T) {
+	harness.Run(t, plan())
+}
+
+// FuzzProperty is the native coverage-guided fuzz entry (thorough tier).
+func FuzzProperty(f *testing.F) {
+	harness.FuzzTarget(f, plan(), "memory", gen.SeedCorpus())
 }
